@@ -197,6 +197,8 @@ package common
 //@   ensures inv_self_bwd: forall k :: {pc.idx2pub[k]} 0 <= k && k < len(pc.idx2pub) ==> has(pc.pub2idx, pc.idx2pub[k].Compressed) && pc.pub2idx[pc.idx2pub[k].Compressed] == pc.trustedParentCount + k
 //@   ensures handle: err == nil ==> out != nil && alloc(out) && (out == pc || !old(alloc(out)))
 //@   ensures failed: err != nil ==> unchanged(pc.idx2pub) && unchanged(pc.pub2idx)
+// the handle that is returned knows the pair: in its own segment, or (a no-op on an inherited entry) below its trusted prefix
+//@   ensures added: err == nil ==> (has(out.pub2idx, pub) && out.pub2idx[pub] == index) || index < out.trustedParentCount
 //@   ensures append_only: len(pc.idx2pub) >= old(len(pc.idx2pub)) && (forall k :: {pc.idx2pub[k]} 0 <= k && k < old(len(pc.idx2pub)) ==> pc.idx2pub[k].Compressed == old(pc.idx2pub[k].Compressed))
 //@   ensures root_known: pc.parent == nil && pc.trustedParentCount == 0 && old(has(pc.pub2idx, pub)) && old(pc.pub2idx[pub]) == index ==> unchanged(pc.idx2pub) && unchanged(pc.pub2idx)
 //@   ensures root_next: pc.parent == nil && pc.trustedParentCount == 0 && !old(has(pc.pub2idx, pub)) && index == old(len(pc.idx2pub)) ==> err == nil && out == pc && len(pc.idx2pub) == index + 1 && pc.idx2pub[index].Compressed == pub && has(pc.pub2idx, pub) && pc.pub2idx[pub] == index
